@@ -187,6 +187,11 @@ func VH_C13_concurrent(caseID int) {
 		}
 	}
 	vSched(true)
+	if n > 2 && stub {
+		// three threads with storage yields: at most two preemptions (every other switch happens
+		// where the running thread blocks or ends)
+		vPreemptBound(2)
+	}
 	for k := 0; k < n; k++ {
 		k := k
 		vSpawn(func() {
@@ -212,6 +217,19 @@ func VH_C13_concurrent(caseID int) {
 	}
 	vAssert(admitted == reached, "status-vs-handler")
 	vAssert(counted <= limit, "never-more-than-limit")
+	// the accounting the interleaving left behind: two more requests in the same window, one
+	// after the other, must not be admitted beyond the limit either
+	for p := 0; p < 2; p++ {
+		fctx := &fasthttp.RequestCtx{}
+		fctx.Request.Header.SetMethod("GET")
+		fctx.Request.SetRequestURI("/0")
+		failing[0] = false
+		app.Handler()(fctx)
+		if fctx.Response.StatusCode() != fiber.StatusTooManyRequests {
+			counted++
+		}
+	}
+	vAssert(counted <= limit, "never-more-than-limit-after-the-race")
 	if !skipFailed {
 		want := n
 		if limit < n {
